@@ -21,7 +21,8 @@ Section Prog.
 
   Inductive prog :=
   | Done (r : R)
-  | Sess (closes : bool) (upd : D -> D) (k : D -> prog).   (* read d; write upd d; continue with k d *)
+  | Sess (closes : bool) (upd : D -> D) (k : D -> prog)    (* read d; write upd d; continue with k d *)
+  | Reopen (k : prog).                                      (* the store object is closed and opened again *)
 
   Inductive conn := COpen | CClosed.
   Inductive pres := PDone (r : R) | PClosed.                (* PClosed: ProgrammingError *)
@@ -30,6 +31,7 @@ Section Prog.
     match p with
     | Done r => (d, PDone r)
     | Sess _ upd k => run_percall (k d) (upd d)
+    | Reopen k => run_percall k d
     end.
 
   Fixpoint run_single (p : prog) (d : D) (c : conn) : D * conn * pres :=
@@ -40,6 +42,7 @@ Section Prog.
         | CClosed => (d, c, PClosed)
         | COpen => run_single (k d) (upd d) (if closes then CClosed else COpen)
         end
+    | Reopen k => run_single k d COpen       (* only what was committed survives; every session commits *)
     end.
 
   Fixpoint runs_percall (ps : list prog) (d : D) : D * list pres :=
@@ -59,6 +62,7 @@ End Prog.
 
 Arguments Done {D R} r.
 Arguments Sess {D R} closes upd k.
+Arguments Reopen {D R} k.
 Arguments PDone {R} r.
 Arguments PClosed {R}.
 
@@ -110,7 +114,8 @@ Inductive wop :=
 | WGetTicks (run : Z)
 | WSeed (run : Z) (o : sobj)            (* create_state_store(run, serialized_state=<in-memory payload of o>) *)
 | WCopy (run src : Z)                   (* create_state_store(run, serialized_state={sqlite, run_id=src}) *)
-| WState (run : Z) (ty : list Z) (o : op).   (* an operation of the run's SqliteStateStore *)
+| WState (run : Z) (ty : list Z) (o : op)    (* an operation of the run's SqliteStateStore *)
+| WReopen.                              (* close the store (and its shared connection), open a new one on the file *)
 
 Inductive wres :=
 | WOk
@@ -210,6 +215,7 @@ Section Compile.
         else Sess ss_closes (fun d => match get_row d src with Some o => put_row d run o | None => d end)
                   (fun _ => Done WOk)
     | WState run ty o => compile_state run ty o
+    | WReopen => Reopen (Done WOk)
     end.
 End Compile.
 
